@@ -346,6 +346,14 @@ def decide(pid, tier, seed, t0):
             path = write_replay(pid, "e1-" + name, {"engine": "E1", "config": r["constants"], "module": module,
                                                       "invariant": r["violated"], "counterexample": r.get("cex_text", "")})
             violations.append(("E1 " + name, r["violated"], path))
+    if tier == "thorough" and pid == "C09":
+        for name, (module, consts, props) in suites.E1_LIVENESS.items():
+            r = engine.model_check(name, module, consts, [], view=None, deadlock=False, spec="FairSpec", properties=props, timeout=3000)
+            e1_results.append(r)
+            if r["violated"]:
+                path = write_replay(pid, "e1-" + name, {"engine": "E1", "config": r["constants"], "module": module,
+                                                          "invariant": "Live_C09", "counterexample": r.get("cex_text", "")})
+                violations.append(("E1 " + name, "liveness", path))
     # ---- E2 -------------------------------------------------------------------------------------
     bundles = []
     relevant = 0
